@@ -7,7 +7,7 @@ CFG = {
                  "C06_valid_never_panics", "C06_validate_ok_iff", "C06_invalid_detected", "C06_normalize_spec",
                  "C06_judge_sound", "C06_filter_v0_is_projection",
                  "C06_parent_and_child_v0_refuted", "C06_unvalidated_panics_v0_refuted"],
-    "level_text": "Theorems (Props/C06.v, closed under the global context) over ALL schemas, all schema-conformant message trees and all read masks: the model of ResponseFilter.FilterClone/Filter (paths cut at fields with nothing to select inside, normalized, then fmutils' nested-mask Filter) equals an independent projection defined on the set of paths, for every mask without empty path segments - valid or not, normalized or not, parent+child and through-repeated-message paths included; nil mask = identity, empty mask = empty message; no mask whatsoever makes the read panic; Validate answers OK exactly for masks all of whose paths are good (so unknown segments and continuations through scalar/map/repeated fields give InvalidArgument). The model is tied to pkg/masks/get.go and to resource.Value.Get / Collection.List / Value.Pull by evaluating it in Coq against ~1000 observed reads per run, together with the projection oracle and a validity oracle built from the Go descriptors.",
+    "level_text": "Theorems (Props/C06.v, closed under the global context) over ALL schemas, all schema-conformant message trees and all read masks: the model of ResponseFilter.FilterClone/Filter (paths cut at fields with nothing to select inside, normalized, then fmutils' nested-mask Filter) equals an independent projection defined on the set of paths, for every mask without empty path segments - valid or not, normalized or not, parent+child and through-repeated-message paths included; nil mask = identity, empty mask = empty message; no mask whatsoever makes the read panic; Validate answers OK exactly for masks all of whose paths are good (so unknown segments and continuations through scalar/map/repeated fields give InvalidArgument). The model is tied to pkg/masks/get.go and to resource.Value.Get / Collection.List / Value.Pull / Collection.Pull (new AND old value of every event of ~45 masked, backpressured streams over Add/Update/Delete and WithInclude transitions) by evaluating it in Coq against ~1200 observed reads per run, together with the projection oracle and a validity oracle built from the Go descriptors.",
     "level_note": "Trusted: Coq kernel + vm_compute; the hand models of fieldmaskpb (IsValid, normalizePaths, lessPath) and fmutils (NestedMaskFromPaths, Filter incl. its panics), validated only by the correspondence on generated inputs; messages as canonical populated-field trees (unknown fields, type names not represented); path strings as segment lists (strings.Split in the harness). Non-mutation of the message read and of the caller's mask is observed on deep copies (Direct violation class read-mutated:<op> / mask-mutated:<op>), not proved: value trees have no aliasing. Masks with empty path segments are covered by the no-panic and validation clauses and by model agreement, not by the projection clause.",
     "trusted_base": [
         "modelled, not verified: google.golang.org/protobuf fieldmaskpb (IsValid/numValidPaths, normalizePaths, lessPath, hasPathPrefix), github.com/mennanov/fmutils v0.1.1 (NestedMaskFromPaths, NestedMask.Filter with its panics), proto.Clone/Reset on value trees",
